@@ -5,22 +5,27 @@ package multi
 
 import (
 	"encoding/binary"
+	"encoding/hex"
 	"fmt"
+	"math/big"
 	"os"
 	"testing"
 	"time"
 
 	sdkmath "cosmossdk.io/math"
 	storetypes "cosmossdk.io/store/types"
+	codectypes "github.com/cosmos/cosmos-sdk/codec/types"
 	sdk "github.com/cosmos/cosmos-sdk/types"
 
 	"github.com/functionx/fx-core/v8/testutil/helpers"
 	fxtypes "github.com/functionx/fx-core/v8/types"
 	crosschainkeeper "github.com/functionx/fx-core/v8/x/crosschain/keeper"
+	"github.com/functionx/fx-core/v8/x/crosschain/precompile"
 	"github.com/functionx/fx-core/v8/x/crosschain/types"
 	erc20types "github.com/functionx/fx-core/v8/x/erc20/types"
 
 	"verifharness/graph"
+	"verifharness/ibctransfer"
 	"verifharness/world"
 )
 
@@ -38,8 +43,10 @@ type Adapter struct {
 	K        crosschainkeeper.Keeper
 	storeKey storetypes.StoreKey
 	tokFX    string
+	tokU     string   // eth contract of the token that also has an IBC voucher form on channel-0
 	denoms   []string // FX + two pair base denominations
 	base     int64
+	timeout0 uint64 // genesis value of the batch timeout parameter (= 1 unit)
 }
 
 func must(err error) {
@@ -60,12 +67,15 @@ func (a *Adapter) user(i int) *helpers.Signer {
 
 func New(t *testing.T, c Consts) *Adapter {
 	w := world.New(t, 2)
+	// an open IBC channel (channel-0 over the localhost connection); runs one real block
+	ibctransfer.NewOn(w, ibctransfer.Consts{Acct: []string{"u1"}, Chan: []string{"channel-0"}, MaxSeq: 4, MaxIn: 1, InitPool: 10})
 	a := &Adapter{W: w, C: c, K: w.App.EthKeeper}
 	a.storeKey = w.App.GetKey(c.Chain)
 	ctx := w.Ctx
 	p := a.K.GetParams(ctx)
 	p.DelegateThreshold = types.NewDelegateAmount(powerUnit)
 	p.DelegateMultiple = 1000
+	a.timeout0 = p.ExternalBatchTimeout
 	must(w.Handle(ctx, &types.MsgUpdateParams{ChainName: c.Chain, Authority: world.GovAddr(), Params: p}))
 	var all []string
 	for i := 0; i < c.N; i++ {
@@ -76,6 +86,13 @@ func New(t *testing.T, c Consts) *Adapter {
 	must(w.Handle(ctx, &types.MsgUpdateChainOracles{ChainName: c.Chain, Authority: world.GovAddr(), Oracles: all}))
 	a.tokFX = world.DetExt(c.Chain + "/multi/token/FX")
 	must(a.K.AddBridgeTokenExecuted(ctx, &types.MsgBridgeTokenClaim{ChainName: c.Chain, TokenContract: a.tokFX, Name: "Function X", Symbol: fxtypes.DefaultDenom, Decimals: 18}))
+	// the IBC world's token "usdt" (voucher alias on channel-0, vouchers parked in the transfer module) also becomes a bridge token of this chain
+	a.tokU = world.DetExt(c.Chain + "/multi/token/USDT")
+	must(w.Handle(ctx, &erc20types.MsgUpdateDenomAlias{Authority: world.GovAddr(), Denom: "usdt", Alias: types.NewBridgeDenom(c.Chain, a.tokU)}))
+	must(a.K.AddBridgeTokenExecuted(ctx, &types.MsgBridgeTokenClaim{ChainName: c.Chain, TokenContract: a.tokU, Name: "Tether USD", Symbol: "USDT", Decimals: 18}))
+	// FX bridged out earlier and locked in the module: liquidity for inbound deposits
+	must(w.App.BankKeeper.MintCoins(ctx, "mint", sdk.NewCoins(world.FX(1000))))
+	must(w.App.BankKeeper.SendCoinsFromModuleToModule(ctx, "mint", c.Chain, sdk.NewCoins(world.FX(1000))))
 	a.denoms = []string{fxtypes.DefaultDenom}
 	for i, sym := range []string{"TKA", "TKB"} {
 		tok := world.DetExt(fmt.Sprintf("%s/multi/token/%d", c.Chain, i))
@@ -181,6 +198,47 @@ func (a *Adapter) Apply(ctx sdk.Context, op graph.Op) (sdk.Context, string) {
 			break
 		}
 		return next, "ok"
+	case "SetParam":
+		p := a.K.GetParams(ctx)
+		if p.ExternalBatchTimeout == a.timeout0*uint64(k) {
+			return ctx, "rej"
+		}
+		p.ExternalBatchTimeout = a.timeout0 * uint64(k)
+		err = w.Handle(ctx, &types.MsgUpdateParams{ChainName: ch, Authority: world.GovAddr(), Params: p})
+	case "DepositIbc":
+		// every online oracle's bridger reports the same deposit; its target is the IBC channel
+		n := a.K.GetLastObservedEventNonce(ctx) + 1
+		voted := 0
+		err = world.Atomic(ctx, func(c sdk.Context) error {
+			for i := 0; i < a.C.N; i++ {
+				or, found := a.K.GetOracle(c, a.oracle(i).AccAddress())
+				if !found || !or.Online {
+					continue
+				}
+				claim := &types.MsgSendToFxClaim{ChainName: ch, BridgerAddress: a.bridger(i).AccAddress().String(), EventNonce: n, BlockHeight: 100 + n,
+					TokenContract: a.tokU, Amount: unit, Sender: world.DetExt(ch + "/multi/extsender"), Receiver: a.user(0).AccAddress().String(),
+					TargetIbc: hex.EncodeToString([]byte("cosmos/transfer/channel-0"))}
+				any, e := codectypes.NewAnyWithValue(claim)
+				must(e)
+				if e := w.Handle(c, &types.MsgClaim{ChainName: ch, BridgerAddress: claim.BridgerAddress, Claim: any}); e != nil {
+					if a.K.GetLastObservedEventNonce(c) >= n {
+						continue // observed already: later votes are refused, like a late oracle's
+					}
+					return e
+				}
+				voted++
+			}
+			if voted == 0 {
+				return fmt.Errorf("no online oracle")
+			}
+			// the observed claim is parked; anybody executes it through the bridge precompile
+			data, e := precompile.NewExecuteClaimMethod(nil).PackInput(types.ExecuteClaimArgs{Chain: ch, EventNonce: new(big.Int).SetUint64(n)})
+			must(e)
+			if ok, msg := w.EthCall(c, a.user(1), types.GetAddress(), 3_000_000, data); !ok {
+				return fmt.Errorf("executeClaim: %s", msg)
+			}
+			return nil
+		})
 	default:
 		panic("unknown op " + op.Name())
 	}
@@ -220,6 +278,11 @@ func (a *Adapter) Project(ctx sdk.Context) any {
 	if bz := st.Get(types.KeyLastOutgoingBatchID); len(bz) > 0 {
 		batches = int64(binary.BigEndian.Uint64(bz)) - 1
 	}
+	param := int64(0)
+	if a.timeout0 > 0 {
+		param = int64(a.K.GetParams(ctx).ExternalBatchTimeout / a.timeout0)
+	}
+	ibc := len(a.W.App.IBCKeeper.ChannelKeeper.GetAllPacketCommitmentsAtChannel(ctx, "transfer", "channel-0"))
 	return map[string]any{"bonded": bonded, "online": online, "calls": count(types.OutgoingBridgeCallNonceKey), "sends": count(types.OutgoingTxPoolKey),
-		"batches": batches, "blocks": 0}
+		"batches": batches, "blocks": 0, "param": param, "ibc": ibc}
 }
